@@ -7,7 +7,9 @@ from .props import RVIAS
 from . import exec_heap
 from .drivers_ragged import rnd_lens, rnd_slice
 
-READ_KINDS = ["repr", "str", "iter", "tolist", "ravel", "sum", "nonzero", "ufunc", "colsum", "len", "shape", "size", "dtype", "lengths", "copy"]
+READ_KINDS = ["repr", "str", "iter", "tolist", "ravel", "sum", "nonzero", "ufunc", "colsum", "len", "shape", "size", "dtype", "lengths", "copy",
+              "unique", "cumsum", "sort", "diff", "accumulate", "max", "mean", "argmax", "pad", "where", "concat", "colbroadcast", "zeros_like",
+              "colvalues", "getrow", "getelem", "rowcol", "any"]
 
 
 def _lens(ob):
